@@ -1,6 +1,6 @@
 CONFIG = {
     "level": "proof",
-    "level_text": "PARTIAL. Lean theorems (kernel-checked, no sorry/axioms): (A) on the abstract NodeDB contract for every history: a finalized root keeps its contents through every commit / finalize (whatever is discarded) / prune of another version, prune removes exactly the earliest finalized non-last version, nothing is ever reported under a root that was not committed under it; (B) on the bookkeeping model of the badger backend (MVCC store, rootsMeta, updatedNodes, maybe-lone/not-lone, lone-root pruning): every operation writes only at its own version's timestamp, so later commits/finalizations never change what an earlier version reads; the exact effect of Finalize on the roots of its version (readable afterwards iff readable before and disjoint from maybeLone\\notLone); prune_exact; and machine-checked COUNTEREXAMPLES showing that the unconditional readable_inv is false for the model (Finalize destroys the root it finalizes; Prune of an older version destroys a retained root); the repaired behaviours are kept as positive regression theorems (a finalized lone empty root no longer blocks pruning); (C) the ABCI pruner arithmetic (keeps the last N, respects vetoes, lastRetained only advances past what was pruned, the database is synced before the retained version advances and a failed Sync or Prune leaves it where it was); the REAL abci genericPruner (verif export NewVerifStatePruner) is run over scripted node databases and every call is compared with that model. The real badger and pathbadger backends are tied on every run by dbdrv: generated version histories on real databases, every observer and a full read-back of every claimed root after every operation, against the contract (checker with witness), against the badger bookkeeping model (exact oracle: it must predict every result, every reported root and exactly which roots read back) and against each other.",
+    "level_text": "PARTIAL. Lean theorems (kernel-checked, no sorry/axioms): (A) on the abstract NodeDB contract for every history: a finalized root keeps its contents through every commit / finalize (whatever is discarded) / prune of another version, prune removes exactly the earliest finalized non-last version, nothing is ever reported under a root that was not committed under it; (B) on the bookkeeping model of the badger backend (MVCC store, rootsMeta, updatedNodes, maybe-lone/not-lone, lone-root pruning): every operation writes only at its own version's timestamp, so later commits/finalizations never change what an earlier version reads; the exact effect of Finalize on the roots of its version (readable afterwards iff readable before and disjoint from maybeLone\\notLone); prune_exact; and machine-checked COUNTEREXAMPLES showing that the unconditional readable_inv is false for the model (Finalize destroys the root it finalizes; Prune of an older version destroys a retained root); the repaired behaviours are kept as positive regression theorems (a finalized lone empty root no longer blocks pruning); (B2) on the bookkeeping model of the pathbadger backend (nodes keyed by (creation version, index), per-version sequence numbers of competing roots, pending/finalized key spaces, copy-then-delete Finalize, io-only Prune): for EVERY admissible history every root the database reports reads back completely and every node carries the hash recorded in the pointer that led to it (pathbadger_readable_inv / pathbadger_no_false_root, by an invariant proved for Commit, Finalize and Prune), and prune_exact; (C) the ABCI pruner arithmetic (keeps the last N, respects vetoes, lastRetained only advances past what was pruned, the database is synced before the retained version advances and a failed Sync or Prune leaves it where it was); the REAL abci genericPruner (verif export NewVerifStatePruner) is run over scripted node databases and every call is compared with that model. The real badger and pathbadger backends are tied on every run by dbdrv: generated version histories on real databases, every observer and a full read-back of every claimed root after every operation, against the contract (checker with witness), against the badger bookkeeping model (exact oracle: it must predict every result, every reported root and exactly which roots read back) against the pathbadger bookkeeping model (exact oracle at the level of the backend's own node keys, read out of its private pointer metadata; it must predict every result incl. backend-specific refusals, every reported root and the outcome ok / not-found / foreign of every read-back; the hypotheses of the pathbadger theorems about what a tree hands to a batch are evaluated on every real commit) and against each other.",
     "technique": "Lean 4 proof over contract + backend bookkeeping model; exact-oracle / witness-checking correspondence with the real badger and pathbadger NodeDBs",
     "models": ["nodedb"],
     "lean_sources": ["OasisModel/NodeDB", "OasisModel/Proto.lean"],
@@ -12,6 +12,7 @@ CONFIG = {
     ],
     "trusted_base": [
         "Lean 4.33 kernel (axioms per theorem listed under coverage.axioms; at most propext, Classical.choice, Quot.sound)",
+        "OasisModel/NodeDB/PathBadger.lean models pathbadger.go NewBatch/Commit/Finalize/Prune and node.go GetNode; tied by the dbdrv exact-oracle mode",
         "OasisModel/NodeDB/Spec.lean is the contract; OasisModel/NodeDB/Badger.lean models badger.go Commit/Finalize/Prune over an MVCC store with one atomic step per operation; both are tied to the Go code by the dbdrv correspondence, not by translation",
         "content addressing is idealised: a node hash determines the node (dbdrv reports any hash that stands for two contents or two child lists)",
         "the verif export go/consensus/cometbft/abci/export_verif_prune.go (constructs the real keep-N pruner)",
@@ -22,6 +23,6 @@ CONFIG = {
         "histories inside the property's quantifier: candidates of a version derive from a finalized root of the previous version, from a root of the same version, or from nothing; versions are finalized in order",
         "write logs and multipart restore are outside the C06 models (multipart: see C07)",
     ],
-    "partial": "The pruner tie uses a scripted database (call order, Sync inside/outside the advance), not a real one. No concurrency: 'reads unaffected by concurrent commit/finalize/prune' is a statement about Badger snapshots and Go locks and is not modelled. The pathbadger bookkeeping has no Lean model; pathbadger is tied only through the contract and the cross-backend comparison. readable_inv for the badger model is proved as frame theorems + the exact Finalize characterisation + a sufficient condition; the unconditional statement is refuted by proved counterexamples that the real backend reproduces (corpus/C06).",
+    "partial": "The pruner tie uses a scripted database (call order, Sync inside/outside the advance), not a real one. No concurrency: 'reads unaffected by concurrent commit/finalize/prune' is a statement about Badger snapshots and Go locks and is not modelled. readable_inv for the badger model is proved as frame theorems + the exact Finalize characterisation + a sufficient condition; the unconditional statement is refuted by proved counterexamples that the real backend reproduces (corpus/C06).",
     "explanation": "Theorems about the contract for every history and about the badger bookkeeping model; correspondence of both real backends with contract, model and each other on generated histories with full read-back after every operation.",
 }
